@@ -67,9 +67,9 @@ type IfaceV struct {
 type FuncV struct {
 	Fn     *ssa.Function
 	Env    []Value
-	Native string  // hook name for functions with no SSA body
-	Recv   Value   // bound receiver (method values of hooked types)
-	ID     int     // closure identity (allocation order), 0 for plain functions
+	Native string           // hook name for functions with no SSA body
+	Recv   Value            // bound receiver (method values of hooked types)
+	ID     int              // closure identity (allocation order), 0 for plain functions
 	Sig    *types.Signature // for opaque methods
 }
 
